@@ -128,9 +128,60 @@ impl<'a> Ctx<'a> {
             }
         }
         if e.children.len() == o.children.len() {
-            for (ec, oc) in e.children.iter().zip(o.children.iter()) {
+            // the parts of a doc comment each lie within THEIR lines: the overview within the lines before the first
+            // tag line, a tag within its head line and the continuation lines up to the next tag line
+            let mut block_of_child: Vec<Option<(Loc, Loc)>> = vec![None; e.children.len()];
+            if let (true, Some(raw), Some(p)) = (e.kind == "doc", &e.raw_doc, &e.pos) {
+                let slack = if self.r.text.contains("\r\n") { 1 } else { 0 };
+                let is_tag = |l: &String| l.trim_start().starts_with('@');
+                let first_tag = raw.iter().position(is_tag).unwrap_or(raw.len());
+                // (keyword, first line, last line) of every tag block, in source order
+                let mut blocks: Vec<(String, usize, usize)> = vec![];
+                let mut i = first_tag;
+                while i < raw.len() {
+                    let mut end = i + 1;
+                    while end < raw.len() && !is_tag(&raw[end]) {
+                        end += 1;
+                    }
+                    let kw: String = raw[i].trim_start().chars().skip(1).take_while(|c| c.is_ascii_alphabetic()).collect();
+                    blocks.push((kw, i, end - 1));
+                    i = end;
+                }
+                let range = |a: usize, b: usize| -> (Loc, Loc) {
+                    let last = self.r.tok_pos[p.first + b].1;
+                    (self.r.tok_pos[p.first + a].0, Loc { row: last.row, col: last.col + slack })
+                };
+                let mut used = vec![false; blocks.len()];
+                for (ci, c) in e.children.iter().enumerate() {
+                    let want = match c.kind {
+                        "overview" => {
+                            if first_tag > 0 {
+                                block_of_child[ci] = Some(range(0, first_tag - 1));
+                            }
+                            continue;
+                        }
+                        "param-tag" => "param",
+                        "returns-tag" => "returns",
+                        "see-tag" => "see",
+                        _ => continue,
+                    };
+                    if let Some(bi) = (0..blocks.len()).find(|bi| !used[*bi] && blocks[*bi].0 == want) {
+                        used[bi] = true;
+                        block_of_child[ci] = Some(range(blocks[bi].1, blocks[bi].2));
+                    }
+                }
+            }
+            for (ci, (ec, oc)) in e.children.iter().zip(o.children.iter()).enumerate() {
                 if ec.kind == oc.kind {
-                    self.walk(ec, oc, doc_range);
+                    if let (Some((a, b)), Some(sp)) = (block_of_child[ci], oc.span) {
+                        let (s, t) = (Loc { row: sp.sr, col: sp.sc }, Loc { row: sp.er, col: sp.ec });
+                        self.obligations += 1;
+                        if !(le(a, s) && le(t, b)) {
+                            let sig = format!("c09/span/doc-part/{}/outside-its-own-lines", oc.kind);
+                            self.out.violate(sig, format!("file {}: {} span {}:{}..{}:{} but its lines occupy {}:{}..{}:{}\n--- input ---\n{}", self.file, oc.kind, s.row, s.col, t.row, t.col, a.row, a.col, b.row, b.col, self.r.text));
+                        }
+                    }
+                    self.walk(ec, oc, block_of_child[ci].or(doc_range));
                 }
             }
         }
